@@ -136,22 +136,45 @@ def impl_segment(buf, enc, mode):
     return "ok [" + " ".join("%s/%s" % (enc_key(k).replace(" ", ":"), hx(c)) for k, c in ps) + "]"
 
 
+class forced_encoding:
+    """Make the real Input decode with `enc` (a key of ENCS or any codec spelling): Input asks
+    locale.getpreferredencoding() through a module-level helper; both are redirected, whichever exists."""
+    def __init__(self, enc):
+        self.name = ENCS.get(enc, enc)
+
+    def __enter__(self):
+        import locale
+        self.saved = [(locale, "getpreferredencoding", locale.getpreferredencoding)]
+        if hasattr(cinput, "getpreferredencoding"):
+            self.saved.append((cinput, "getpreferredencoding", cinput.getpreferredencoding))
+        for mod, attr, _ in self.saved:
+            setattr(mod, attr, lambda *a, **k: self.name)
+        return self
+
+    def __exit__(self, *a):
+        for mod, attr, old in self.saved:
+            setattr(mod, attr, old)
+
+
+UNAVAILABLE = "harness-hook-unavailable"
+
+
 def e2e_segment(buf, enc, mode):
     """The REAL find_key closure inside Input._send: preload unprocessed_bytes, call send() while bytes remain.
-    -> list of keys, or the exception kind"""
+    -> list of keys, or the exception kind; UNAVAILABLE when Input no longer keeps its pending bytes in a list
+    attribute `unprocessed_bytes` (then the burst family, which uses only the public interface, stands alone)"""
     inp = cinput.Input(in_stream=None, keynames=MODES[mode], paste_threshold=None, sigint_event=False)
+    if not isinstance(getattr(inp, "unprocessed_bytes", None), list):
+        return UNAVAILABLE
     inp.unprocessed_bytes = [B[b] for b in buf]
-    saved = cinput.getpreferredencoding
-    cinput.getpreferredencoding = lambda: ENCS.get(enc, enc)
     out = []
-    try:
-        while inp.unprocessed_bytes:
-            n = len(inp.unprocessed_bytes)
-            out.append((inp.send(0), n - len(inp.unprocessed_bytes)))
-    except Exception as e:  # noqa: BLE001
-        return exc_kind(e)
-    finally:
-        cinput.getpreferredencoding = saved
+    with forced_encoding(enc):
+        try:
+            while inp.unprocessed_bytes:
+                n = len(inp.unprocessed_bytes)
+                out.append((inp.send(0), n - len(inp.unprocessed_bytes)))
+        except Exception as e:  # noqa: BLE001
+            return exc_kind(e)
     return out
 
 
@@ -171,23 +194,21 @@ def burst_through_input(buf, enc, paste_threshold, mode="curtsies"):
     r, w = os.pipe()
     kw = {} if paste_threshold == "default" else {"paste_threshold": paste_threshold}
     inp = cinput.Input(in_stream=_FdStream(r), sigint_event=False, keynames=MODES[mode], **kw)
-    saved = cinput.getpreferredencoding
-    cinput.getpreferredencoding = lambda: ENCS[enc]
     out = []
     try:
-        os.write(w, bytes(buf))
-        for _ in range(len(buf) + 5):
-            e = inp.send(0)
-            if e is None:
-                break
-            if isinstance(e, ev.PasteEvent):
-                out.extend(e.events)
-            else:
-                out.append(e)
+        with forced_encoding(enc):
+            os.write(w, bytes(buf))
+            for _ in range(len(buf) + 5):
+                e = inp.send(0)
+                if e is None:
+                    break
+                if isinstance(e, ev.PasteEvent):
+                    out.extend(e.events)
+                else:
+                    out.append(e)
     except Exception as x:  # noqa: BLE001
         out.append("RAISED " + type(x).__name__)
     finally:
-        cinput.getpreferredencoding = saved
         os.close(r)
         os.close(w)
     return out
